@@ -62,7 +62,7 @@ def gen_weights(g, shape, menu):
 
 def gen_spec(g, *, max_nts=3, max_rules=3, max_nodes=4, max_edges=4, max_arity=3,
              recursion='any', weights='prob', start_arity=None, explicit_ids='mixed',
-             shapes=True, n_labels=None, max_dom=3, range_domains=True, min_dom=1, repeat_ext=True):
+             shapes=True, n_labels=None, max_dom=3, range_domains=True, min_dom=1, repeat_ext=True, min_nts=1):
     """recursion: 'none' | 'linear' | 'any' | 'nonlinear'
     shapes=True adds the shapes the properties name: edgeless internal/external nodes, repeated
     attachment, nullary factors, nonterminals without rules, unreachable nonterminals."""
@@ -78,7 +78,7 @@ def gen_spec(g, *, max_nts=3, max_rules=3, max_nodes=4, max_edges=4, max_arity=3
             g.shuffle(vs)
             domains[nl] = {'kind': 'finite', 'values': vs[:n]}
     # nonterminals
-    n_nts = g.randrange(1, max_nts + 1)
+    n_nts = g.randrange(min(min_nts, max_nts), max_nts + 1)
     nts = {}
     names = ['S', 'X', 'Y', 'Z'][:n_nts]
     for i, nm in enumerate(names):
@@ -133,6 +133,10 @@ def gen_rule(g, lhs, li, names, nts, terms, domains, labels, max_nodes, max_edge
     if recursion == 'none':
         allowed = names[li + 1:]
         max_nt = 2
+    elif recursion == 'linear-mutual':
+        # every rule has at most one nonterminal edge, but it may lead anywhere: linear SCCs with several nonterminals
+        allowed = list(names)
+        max_nt = 1
     elif recursion == 'linear':
         allowed = names[li:]
         max_nt = 1
